@@ -574,12 +574,19 @@ def _tainted(body, op, seen, depth):
                 return True
             if last in STRUCTURAL_CALLS:
                 continue
-            if last in ("map", "map_or", "map_or_else", "and_then", "unwrap_or_else", "filter", "or_else") and c is not None and c.path.startswith("std::option::Option") and PROG is not None:
+            if last in ("map", "map_or", "map_or_else", "and_then", "unwrap_or_else", "filter", "or_else") and c is not None and c.path.startswith(("std::option::Option", "std::result::Result")) and PROG is not None:
                 # a combinator on an Option: structural when its operands are and the closures it is given neither parse
                 # nor convert from a float
                 bad_ = False
                 for a_ in rv.get("args", []):
                     cid_ = R.closure_id_of_operand(body, a_)
+                    k_ = op_const(a_)
+                    if cid_ is None and k_ is not None and "{" in str(k_.get("ty", "")) and str(k_.get("ty", "")).startswith(("fn(", "for<")):
+                        # a function of the crate handed over by name (`map_or(0, newline_count)`)
+                        fb_ = PROG.maybe_body(str(k_["ty"]).rsplit("{", 1)[1].rstrip("}"))
+                        if fb_ is None or fb_.call_sites(lambda c2: c2.path.split("::")[-1] in TAINT_CALLS) or any((s_.get("rv") or {}).get("k") == "cast" and "FloatToInt" in str((s_.get("rv") or {}).get("ck", "")) for _x, _i, s_ in fb_.all_stmts()):
+                            bad_ = True
+                        continue
                     if cid_ is not None:
                         cb_ = PROG.bodies.get(cid_)
                         if cb_ is None or cb_.call_sites(lambda c2: c2.path.split("::")[-1] in TAINT_CALLS) or any((s_.get("rv") or {}).get("k") == "cast" and str(cb_.local_ty((op_place((s_["rv"]).get("op")) or (0,))[0])) in ("f32", "f64") for _x, _i, s_ in cb_.all_stmts()):
